@@ -526,7 +526,7 @@ def run(ctx):
         explore(ctx, hs, drv, 120, 60, 20, "main")
     else:
         explore(ctx, hs, drv, 500, 250, 80, "main")
-    if ctx.proof_broken or ctx.corr_broken:
+    if (ctx.proof_broken or ctx.corr_broken) and not ctx.violations:
         ctx.log("obligation or correspondence broken: widening the search for a failing input")
         for i in range(3):
             explore(ctx, hs, drv, 120, 60, 20, "search%d" % i)
